@@ -180,8 +180,12 @@ static std::string run(const std::vector<std::string>& t)
       }
       case 'Z': {
         int w = (int) f[0];
-        Set2 s2; s2.beginResize();
+        // second set with the same (perturbed) content.  With pairwise distinct (global, attribute) keys one batch is enough;
+        // with equal keys std::sort leaves their order unspecified, so the pairs are added one per resize phase, last first
+        // (merge() puts an added pair before equal old ones), which reproduces the iteration order deterministically.
+        std::vector<std::pair<TG, TL> > content;
         const std::size_t n = cs.size(); std::size_t k = 0;
+        bool ties = false;
         for (typename Set::const_iterator it = cs.begin(); it != cs.end(); ++it, ++k) {
           TG g = it->global(); TL l = it->local();
           if (k + 1 == n) {
@@ -192,9 +196,23 @@ static std::string run(const std::vector<std::string>& t)
             else if (w == 5) continue;
             else if (w == 6) l.setState(l.state() == Dune::VALID ? Dune::DELETED : Dune::VALID);
           }
-          s2.add(g, l);
+          if (!content.empty() && content.back().first == g && attr_of(content.back().second) == attr_of(l)) ties = true;
+          content.push_back(std::make_pair(g, l));
         }
-        s2.endResize();
+        // all pairs enter s2 as VALID (merge() would drop DELETED ones in a later phase); the states are set afterwards
+        Set2 s2;
+        if (!ties) {
+          s2.beginResize();
+          for (std::size_t j = 0; j < content.size(); ++j) { TL l = content[j].second; l.setState(Dune::VALID); s2.add(content[j].first, l); }
+          s2.endResize();
+        } else {
+          for (std::size_t j = content.size(); j-- > 0; ) {
+            TL l = content[j].second; l.setState(Dune::VALID);
+            s2.beginResize(); s2.add(content[j].first, l); s2.endResize();
+          }
+        }
+        { std::size_t j = 0;
+          for (typename Set2::iterator it = s2.begin(); it != s2.end() && j < content.size(); ++it, ++j) it->local().setState(content[j].second.state()); }
         bool eq = (cs == s2), ne = (cs != s2);
         r = bits({ eq, ne });
         if ((s2 == cs) != eq) r += " (asymmetric)";
